@@ -16,7 +16,7 @@ func init() {
 		"non-trivial = a document that differs from the base document; distinct = (emitted source hash, document)"
 }
 
-var c05Devs = []string{"FLOAT_MULTIPLEOF_TOLERANCE", "INT_BOUND_TRUNCATED"}
+var c05Devs = []string{"NULLABLE_DEF_UNENFORCED", "FLOAT_MULTIPLEOF_TOLERANCE", "INT_BOUND_TRUNCATED"}
 
 func c05(ctx *Ctx) {
 	c05PartA(ctx)
@@ -177,9 +177,9 @@ func c05Cases(level int) []SCase {
 								"required":   A{"r", "nr"}}
 							out = append(out, SCase{ID: "C05/props/" + name, Schema: root, Cfg: baseCfg(), Axes: map[string]string{"pos": "props", "leaf": name}})
 							def := J{"type": "object",
-								"properties": J{"d": J{"$ref": "#/$defs/D"}, "do": J{"$ref": "#/$defs/D"}},
+								"properties": J{"d": J{"$ref": "#/$defs/D"}, "do": J{"$ref": "#/$defs/D"}, "dn": J{"$ref": "#/$defs/DN"}},
 								"required":   A{"d"},
-								"$defs":      J{"D": l}}
+								"$defs":      J{"D": l, "DN": nl}}
 							out = append(out, SCase{ID: "C05/def/" + name, Schema: def, Cfg: baseCfg(), Axes: map[string]string{"pos": "def", "leaf": name}})
 							out = append(out, SCase{ID: "C05/root/" + name, Schema: space.Clone(l), Cfg: baseCfg(), Axes: map[string]string{"pos": "root", "leaf": name}})
 						}
